@@ -93,6 +93,23 @@ CHECKS = {
         note='Trusted: CrossHair, z3. Description keys and attribute names are fixed lists. Outside: the full grammar of valid descriptions.',
         design='4/C20', technique='CrossHair contracts + symbolic execution of the controller constructor (z3); concrete side conditions for the finite rejection table',
     ),
+    'C10': dict(
+        category='other',
+        text='(a) for an UNINTERPRETED right-hand side f (so linear and nonlinear problems alike): the real restrict, coarse update_nodes (implicit/explicit, 2 and 3 levels, inherited tau, middle-level sweeps) and '
+             'prolong/prolong_f run on z3 terms; assuming the fine level holds its collocation solution, SMT (QF_UFLRA) shows every coarse sweep leaves the restricted solution and every fine value / rhs is unchanged; '
+             '(b) coarse defect after restrict == R * fine defect for arbitrary fine values and tau; (c) one real down-coarse-up-fine cycle of controller_nonMPI on arbitrary fine values equals the multigrid-in-time iteration '
+             'written with explicit matrices and solved inside the query (QF_LRA, 1e-9).',
+        note='Trusted: z3; implicit-solve stub contract (returns a root; returns the guess if it is a root); real node tables with restriction rows made exactly stochastic (~1e-16 change); injection in space. Outside: real mesh transfer classes (C11), mass matrices, >3 levels.',
+        design='4/C10', technique='symbolic execution of real transfer/sweep code with an uninterpreted right-hand side + SMT (QF_UFLRA / QF_LRA)',
+    ),
+    'C19': dict(
+        category='other',
+        text='The real controller runs on a symbolic initial value; two runs are bit-identical for EVERY input iff their result terms and all statistics values are structurally identical z3 terms. Scenarios: fresh controller twice, '
+             'same controller two and three times, a differently configured controller (extra status variables, hooks) run in between, split at every block boundary (statistics of the halves merged). Non-identical pairs are '
+             'decided over the reals by the solver and replayed on real floats.',
+        note='Trusted: structural identity of terms implies bit-equal floats. Known finding: initial_guess=random (hidden RNG state). Outside: MPI, adaptive step sizes, timings.',
+        design='4/C19', technique='symbolic execution of whole real runs; syntactic term identity, SMT equality over the reals as fallback',
+    ),
 }
 
 NOT_APPLICABLE = {
